@@ -13,6 +13,7 @@ import (
 	"github.com/bytedance/sonic/ast"
 	"github.com/bytedance/sonic/decoder"
 	"github.com/bytedance/sonic/encoder"
+	"github.com/bytedance/sonic/internal/decoder/optdec"
 	"github.com/bytedance/sonic/internal/simrt"
 	"github.com/bytedance/sonic/unquote"
 	"github.com/bytedance/sonic/utf8"
@@ -27,6 +28,7 @@ func init() { workloads["C05"] = &workload{run: runC05, init: initC05} }
 
 var c05Arena *arena
 var c05Ctx *os.File
+var c05Optdec = os.Getenv("SONIC_USE_OPTDEC") == "1"
 
 // c05Call runs one entry point; a fault at the guard page becomes a result
 // (debug.SetPanicOnFault turns the SIGSEGV raised inside the native routine
@@ -348,6 +350,35 @@ func runC05(c *Ctx) Result {
 	cont := c05Conts[g.d(len(c05Conts))]
 	// placements: heap copy; arena with the guard page right after; arena with a hostile continuation
 	heap := strings.Clone(in + "\x00")[:len(in)]
+	// optdec parses a pooled private copy: its buffer geometry and leftovers are one more
+	// "placement" (a fresh parser per call: capacity around len(in)+padding, spare bytes
+	// holding what an earlier, longer document would have left there)
+	geom := func() string {
+		if !c05Optdec {
+			return ""
+		}
+		capN, nodeCap := 8192, 4096
+		switch g.d(4) {
+		case 3: // the shipped sizes
+			capN, nodeCap = 1<<20, 1<<16
+		case 0:
+			capN = len(in) - 8 + g.d(96)
+			if capN < 0 {
+				capN = 0
+			}
+		case 1:
+			capN = []int{0, 1, 16, 64, 4096}[g.d(5)]
+		}
+		if g.d(3) == 0 {
+			nodeCap = []int{64, 256, 1024}[g.d(3)]
+		}
+		junk := c05Conts[g.d(len(c05Conts))]
+		simrt.ResetPools()
+		optdec.SimParserGeometry(capN, []byte(junk), nodeCap)
+		c.inc("knob_optdec_parser_geometry")
+		return fmt.Sprintf(" [parser buffer cap=%d leftovers=%q nodes=%d]", capN, junk, nodeCap)
+	}
+	geo0 := geom()
 	sample := map[string]interface{}{"entry": e.name, "input": clip(in, 120), "len": len(in), "class": class, "continuation": cont}
 	res := Result{Sample: sample, Nontrivial: len(in) > 0}
 	sigBase := e.name + ":" + class
@@ -358,17 +389,19 @@ func runC05(c *Ctx) Result {
 	gap = 1 + g.d(48)
 	setCtx("C05:crash:" + sigBase + fmt.Sprintf(" | input=%q len=%d gap=%d cont=%q", clip(in, 60), len(in), gap, cont))
 	b := c05Arena.placeString(in, gap, []byte(cont))
+	geo2 := geom()
 	r2 := c05Call(e, b)
 	c.inc("fault_hostile_continuation")
 	if r0 != r2 {
 		setCtx("")
 		res.Sig = "C05:result-depends-on-what-follows-the-input:" + sigBase
-		res.Detail = fmt.Sprintf("%s(%q): %s on a heap copy, %s with the bytes %q after the input", e.name, clip(in, 100), clip(r0, 160), clip(r2, 160), cont)
+		res.Detail = fmt.Sprintf("%s(%q): %s on a heap copy%s, %s with the bytes %q after the input%s", e.name, clip(in, 100), clip(r0, 160), geo0, clip(r2, 160), cont, geo2)
 		return res
 	}
 	// 2. the page after the input is unmapped
 	setCtx("C05:crash-at-guard-page:" + sigBase + fmt.Sprintf(" | input=%q len=%d", clip(in, 60), len(in)))
 	a := c05Arena.placeString(in, 0, []byte{0})
+	geo1 := geom()
 	r1 := c05Call(e, a)
 	setCtx("")
 	c.inc("fault_guard_page_after_input")
@@ -377,7 +410,7 @@ func runC05(c *Ctx) Result {
 		if strings.HasPrefix(r1, "FAULT(") {
 			res.Sig = "C05:read-past-end-of-input:" + sigBase
 		}
-		res.Detail = fmt.Sprintf("%s(%q): %s on a heap copy, %s at the end of mapped memory", e.name, clip(in, 100), clip(r0, 160), clip(r1, 160))
+		res.Detail = fmt.Sprintf("%s(%q): %s on a heap copy%s, %s at the end of mapped memory%s", e.name, clip(in, 100), clip(r0, 160), geo0, clip(r1, 160), geo1)
 	}
 	return res
 }
